@@ -73,7 +73,7 @@ func runC08Lend(ctx *Ctx) {
 			c := &Case{Sub: "lend", Type: string(t.Name), Bytes: hexs(a), Bytes2: hexs(b), Args: map[string]string{
 				"field":  strconv.Itoa(int(fd.Number())),
 				"source": rapid.SampledFrom([]string{"mutable", "mutable", "get", "newfield"}).Draw(rt, "source"),
-				"then":   rapid.SampledFrom([]string{"mutate", "clearmutate", "clearmutate"}).Draw(rt, "then"),
+				"then":   rapid.SampledFrom([]string{"mutate", "clearmutate", "clearmutate", "lenderclear"}).Draw(rt, "then"),
 				"pre":    strconv.Itoa(rapid.IntRange(0, 3).Draw(rt, "elementsFirst")),
 				"post":   strconv.Itoa(rapid.IntRange(1, 3).Draw(rt, "elementsAfter")),
 			}}
@@ -112,6 +112,9 @@ func checkC08Lend(ctx *Ctx, c *Case) error {
 	source, then := c.arg("source"), c.arg("then")
 	if source == "get" && !sides[sD].a.Has(fd) {
 		source = "mutable" // Get on an unpopulated field gives the read-only empty view, whose use with Set is a contract panic
+	}
+	if then == "lenderclear" && source == "newfield" {
+		then = "clearmutate" // a detached value has no lender to clear
 	}
 	elem := func(s int, i int) (protoreflect.Value, error) {
 		var efd protoreflect.FieldDescriptor = fd
@@ -185,6 +188,14 @@ func checkC08Lend(ctx *Ctx, c *Case) error {
 			if then == "clearmutate" {
 				sd.b.Clear(fd)
 			}
+			if then == "lenderclear" {
+				// the lender drops the field: the destination keeps what it was given
+				sd.a.Clear(fd)
+				got[s].viewLen = "-"
+				got[s].lender = model.Canon(sd.a, sd.view)
+				got[s].dest = model.Canon(sd.b, sd.view)
+				return nil
+			}
 			if source == "get" {
 				// a Get view is read-only by contract: mutate the lender through Mutable instead
 				views[s] = sd.a.Mutable(fd)
@@ -235,7 +246,11 @@ func checkC08Lend(ctx *Ctx, c *Case) error {
 	if err := cmp("length seen through the view", got[sP].viewLen, got[sD].viewLen, got[sI].viewLen); err != nil {
 		return err
 	}
-	if then == "clearmutate" {
+	if then == "lenderclear" {
+		if err := cmp("the destination after the lender cleared its field", got[sP].dest, got[sD].dest, got[sI].dest); err != nil {
+			return err
+		}
+	} else if then == "clearmutate" {
 		if err := cmp("the destination after it cleared the field and the view was written again", got[sP].dest, got[sD].dest, got[sI].dest); err != nil {
 			return err
 		}
